@@ -4,18 +4,30 @@ Fault plans are arbitrary predicates on operation sites (stat of a walk root / r
 directory, the k-th directory read, open of a file or `.gitignore`, stat of an opened file, the lazy
 size stat): every theorem quantifies over ALL plans, i.e. any number of simultaneous faults.
 
-CONFIGURATION CLASSES (classes of configurations, not narrowing hypotheses on the input):
+NAMING AND CONFIGURATION CLASSES.  A theorem that holds only inside a class of configurations carries the class in its NAME
+(`_benign`, `_fatalcfg`, `_limitcfg`, `_cancelcfg`): that is a restriction of the property's quantifier over configurations,
+not a relabelling; `_partial` marks a hypothesis that narrows the quantifier over inputs (DistinctNames, one root, `paths = []`,
+NoGiFaults, NoReadFaults).  Names without suffix hold for EVERY configuration (at most `NoExtractorPanic` / the matcher's domain law).
   * `Benign c` (no inode limit, no cancellation, `ErrorOnFSErrors` off, no panicking extractor): EXACT theorems
-    `C09_nonfatal`, `C09_contained_run`, `C09_gitignore_unreadable_run`, `C09_surfaced`.
+    `C09_nonfatal_benign`, `C09_contained_run_partial`, `C09_gitignore_unreadable_run_partial`, `C09_surfaced_benign`.
   * `FatalCfg c` (`ErrorOnFSErrors` on; no inode limit, no cancellation, no panicking extractor): EXACT theorems
-    `C09_fatal` / `C09_fatal_declarative` (fails iff a traversal fault is met) and `C09_fatal_clean` (no traversal
+    `C09_fatal_fatalcfg` / `C09_fatal_declarative_fatalcfg` (fails iff a traversal fault is met) and `C09_fatal_clean_fatalcfg` (no traversal
     fault ⇒ the benign scan: success, attempts, inventory, statuses).
   * EVERY configuration (limits, cancellation, panicking extractors, all combinations): `C09_no_panic`,
     `C09_fatal_step`, and `C09_eofs_only_by_failing` (the flag acts only by making the scan fail) — the latter
     reduces limit+fatal and cancellation+fatal configurations that do not fail to their non-fatal twins, which
     C10's `run_trace` describes exactly when no extractor panics.  Configurations with a panicking extractor have
     only `C09_no_panic`-style statements (and C02's).
-Narrowing hypotheses (`NoGiFaults`, `paths = []`) are named in the docstrings.
+Narrowing hypotheses (`NoGiFaults`, `paths = []`) are named in the docstrings and carry `_partial`.
+
+FAULT SITES of the model: stat of a walk root / requested path, open of a directory, the k-th `ReadDir(1)` of a directory
+(k = #entries is the end-of-listing call), open of a file or `.gitignore`, `Stat()` on an opened file, the lazy size stat.
+There is NO site "the n-th `Read` of an opened file fails": the engine never reads file contents — it opens the file,
+stats it and hands the reader to `Extract`; a read error is therefore the EXTRACTOR's business and appears in the model
+as that `Extract` returning an error (`ExtractOut.err`), whose consequence (status failed / partial, nothing else
+changes) is `C09_statuses_of_calls` / `C02_confined_two_benign`.  One error kind in the model: the engine treats all
+kinds alike apart from log levels (the stream injects permission, not-exist and other errors).
+"Terminates" is Lean totality of a structural recursion over the finite tree.
 -/
 import Scalibr.Proofs.WalkTop
 import Scalibr.Proofs.WalkMore
@@ -23,6 +35,8 @@ import Scalibr.Proofs.WalkFatal
 import Scalibr.Proofs.WalkEofs
 import Scalibr.Proofs.WalkContain
 import Scalibr.Proofs.WalkAnchor
+import Scalibr.Proofs.WalkContainAny
+import Scalibr.Proofs.WalkStatuses
 namespace Scalibr.Walk
 
 /-- No ENGINE panic: whatever the trees, fault plans, limits, options and cancellation point, a scan ends
@@ -42,7 +56,7 @@ theorem C09_no_panic (c : Cfg) (hx : NoExtractorPanic c) (roots : List (Node × 
 /-- With errors not fatal (and no limit / cancellation), NO set of filesystem faults fails the scan.
 (False before fixes b4e342f8 and 481727ce: a failing lazy size stat, resp. an unreadable parent
 `.gitignore`, failed the whole scan.) -/
-theorem C09_nonfatal (c : Cfg) (hb : Benign c) (roots : List (Node × Faults)) (ho : GiOK c) :
+theorem C09_nonfatal_benign (c : Cfg) (hb : Benign c) (roots : List (Node × Faults)) (ho : GiOK c) :
     (run c roots).err = .none :=
   (run_spec c hb roots ho).1
 
@@ -50,7 +64,7 @@ theorem C09_nonfatal (c : Cfg) (hb : Benign c) (roots : List (Node × Faults)) (
 of the fault-free scan, minus the files below a directory that cannot be opened, at or after a failing
 directory read, or whose size cannot be determined; for every other file the attempt is made exactly as
 without faults — only its `opened` flag records whether the file itself could be opened and stat'ed. -/
-theorem C09_contained (c : Cfg) (f : Faults) (hg : NoGiFaults f) (above : List GiEntry) (p : Path) (n : Node) :
+theorem C09_contained_partial (c : Cfg) (f : Faults) (hg : NoGiFaults f) (above : List GiEntry) (p : Path) (n : Node) :
     mustFrom c f above p n =
       (allFiles p [] n).flatMap fun r =>
         if faultHits c f r then []
@@ -59,12 +73,12 @@ theorem C09_contained (c : Cfg) (f : Faults) (hg : NoGiFaults f) (above : List G
   exact flatMap_congr' (fun r _ => mustOne_contained c f hg above r)
 
 /-- **Containment at engine level** (class `Benign`; narrowing: whole-tree scans `paths = []`, no unreadable
-`.gitignore`): composition of `C09_contained` with `C01_calls`, for any number of roots.  The attempts of the scan
+`.gitignore`): composition of `C09_contained_partial` with `C01_calls_benign`, for any number of roots.  The attempts of the scan
 are, root by root, the attempts of the FAULT-FREE rule for every file no fault lies on the way to (`faultHits`:
 a directory above it cannot be opened, the listing of a directory above it fails at or before the entry leading to
 it, its size cannot be determined while a limit is set) — in order, with multiplicity; `opened` records whether the
 file itself could be opened and stat'ed.  Nothing for a root that cannot be stat'ed. -/
-theorem C09_contained_run (c : Cfg) (hb : Benign c) (ho : GiOK c) (hp : c.paths = []) (roots : List (Node × Faults))
+theorem C09_contained_run_partial (c : Cfg) (hb : Benign c) (ho : GiOK c) (hp : c.paths = []) (roots : List (Node × Faults))
     (hg : ∀ rf ∈ roots, NoGiFaults rf.2) :
     (run c roots).err = .none ∧ (run c roots).calls = roots.flatMap fun rf => containedRoot c rf.2 rf.1 :=
   run_contained c hb ho hp roots hg
@@ -74,7 +88,7 @@ theorem C09_contained_noFaults (c : Cfg) (hp : c.paths = []) (root : Node) :
     containedRoot c noFaults root = mustRoot c noFaults root :=
   containedRoot_noFaults c hp root
 
-/-- **Unreadable `.gitignore`** (the counterpart of `C09_contained`, ANY fault plan): a `.gitignore` that cannot be
+/-- **Unreadable `.gitignore`** (the counterpart of `C09_contained_partial`, ANY fault plan): a `.gitignore` that cannot be
 opened has exactly the effect of an absent one — the owed attempts are those for the tree from which the unreadable
 `.gitignore` contents have been removed (`stripGi`); nothing else is lost and nothing below that directory is
 skipped.  (When the unreadable file is itself required by an extractor, its own attempt is owed with
@@ -85,14 +99,51 @@ theorem C09_gitignore_unreadable (c : Cfg) (f : Faults) (above : List GiEntry) (
 
 /-- … at engine level (class `Benign`; narrowing: `paths = []`; any number of roots): scanning the trees as they are
 makes exactly the attempts of scanning the trees with the unreadable `.gitignore` contents removed. -/
-theorem C09_gitignore_unreadable_run (c : Cfg) (hb : Benign c) (ho : GiOK c) (hp : c.paths = []) (roots : List (Node × Faults)) :
+theorem C09_gitignore_unreadable_run_partial (c : Cfg) (hb : Benign c) (ho : GiOK c) (hp : c.paths = []) (roots : List (Node × Faults)) :
     (run c roots).calls = (run c (roots.map fun rf => (stripGi rf.2 [] rf.1, rf.2))).calls :=
   run_stripGi c hb ho hp roots
+
+/-- **Containment for ANY fault plan** (no hypothesis: plans mixing unreadable `.gitignore` files with any other
+faults included; specification level): what a walk owes under plan `f` is, file by file over the tree with the unreadable
+`.gitignore` contents removed (`stripGi`: an unreadable `.gitignore` is an absent one), the FAULT-FREE rule
+`mustOne c noFaults` for every file no fault lies on the way to (`faultHits`), with `opened` recording whether the file
+itself could be opened and stat'ed. -/
+theorem C09_contained_any (c : Cfg) (f : Faults) (above : List GiEntry) (p : Path) (n : Node) :
+    mustFrom c f above p n =
+      (allFiles p [] (stripGi f p n)).flatMap fun r =>
+        if faultHits c f r then []
+        else (mustOne c noFaults above r).map fun cl => { cl with opened := readable f r } :=
+  mustFrom_contained_any c f above p n
+
+/-- … and at ENGINE level (class `Benign`; ANY fault plans, ANY requested paths, any number of roots): the attempts of
+the scan are `containedRootAny` root by root — for a whole-tree scan the right-hand side above; for a requested
+directory the same below the `.gitignore` context of the directories above it; for a requested file its fault-free
+attempts unless its size stat fails; nothing for a start path that cannot be stat'ed or does not exist. -/
+theorem C09_contained_run_any_benign (c : Cfg) (hb : Benign c) (ho : GiOK c) (roots : List (Node × Faults)) :
+    (run c roots).err = .none ∧ (run c roots).calls = roots.flatMap fun rf => containedRootAny c rf.2 rf.1 :=
+  run_contained_any c hb ho roots
+
+/-- **Statuses and inventory are functions of each root's attempts — EVERY configuration without a panicking
+extractor** (inode limit, size limit, cancellation, `ErrorOnFSErrors` on or off): whenever the scan does not fail,
+its attempt log splits root by root (`segs`) and the status of extractor `e` for a root is `statusOfCalls` of THAT
+root's attempts — failed/partial exactly when one of them could not open / stat its file or its `Extract` returned an
+error, partial when in addition one returned inventory (`C09_status_meaning` reads the same definition) — and the
+inventory is `pkgsOfCalls` of the same attempts.  `C09_surfaced_benign` is the special case where the attempts are the
+specification's. -/
+theorem C09_statuses_of_calls (c : Cfg) (hx : ∀ e p, (c.extract e p).panics = false) (roots : List (Node × Faults))
+    (hok : (run c roots).err = .none) :
+    ∃ segs : List (List Call), segs.length = roots.length ∧ (run c roots).calls = segs.flatten ∧
+      (run c roots).statuses = segs.flatMap (fun cur => (List.range c.nExt).map fun e => (e, statusOfCalls c cur e)) ∧
+      (run c roots).pkgs = segs.flatMap (pkgsOfCalls c) :=
+  run_statuses_of_calls c hx roots hok
+
+theorem C09_statusSpec_is_statusOfCalls (c : Cfg) (f : Faults) (r : Node) (e : Nat) :
+    statusSpec c f r e = statusOfCalls c (mustRoot c f r) e := rfl
 
 /-- Surfacing: in a benign scan the status of extractor `e` for a root is `failed` or `partial` exactly
 when one of its attempts there could not open / stat its file or its `Extract` returned an error, and it
 is `partial` exactly when, in addition, one of its invocations returned inventory. -/
-theorem C09_surfaced (c : Cfg) (hb : Benign c) (roots : List (Node × Faults)) (ho : GiOK c) :
+theorem C09_surfaced_benign (c : Cfg) (hb : Benign c) (roots : List (Node × Faults)) (ho : GiOK c) :
     (run c roots).statuses = roots.flatMap fun (r, f) => (List.range c.nExt).map fun e => (e, statusSpec c f r e) :=
   (run_results c hb roots ho).2
 
@@ -144,11 +195,11 @@ fails with a filesystem error EXACTLY when the walk is told about a filesystem f
 cannot be opened or whose listing fails, an unreadable `.gitignore` of a directory it enters, the failing
 size stat of a required file, a start path that cannot be stat'ed or does not exist (`traversalFaultScan`,
 defined on the trees and fault plans alone). For all forests, fault plans and option combinations. -/
-theorem C09_fatal (c : Cfg) (hb : FatalCfg c) (ho : GiOK c) (roots : List (Node × Faults)) :
+theorem C09_fatal_fatalcfg (c : Cfg) (hb : FatalCfg c) (ho : GiOK c) (roots : List (Node × Faults)) :
     (run c roots).err = (if traversalFaultScan c roots then .fs else .none) :=
   run_fatal c hb ho roots
 
-/-- **`traversalFaultScan` anchored declaratively** (no hypothesis): the structural definition used in `C09_fatal`
+/-- **`traversalFaultScan` anchored declaratively** (no hypothesis): the structural definition used in `C09_fatal_fatalcfg`
 equals `toldFaultScan` (Spec/WalkNodes.lean), which is written over ONE enumeration of every node of the tree with
 the chain of directories above it (`allNodes`, the analogue of `allFiles`): some root has
   * a start path (the root, or a requested path) that cannot be stat'ed or does not exist, or
@@ -162,16 +213,16 @@ theorem C09_fatal_anchor (c : Cfg) (roots : List (Node × Faults)) :
     traversalFaultScan c roots = toldFaultScan c roots :=
   traversalFaultScan_anchor c roots
 
-/-- `C09_fatal` with the declarative right-hand side. -/
-theorem C09_fatal_declarative (c : Cfg) (hb : FatalCfg c) (ho : GiOK c) (roots : List (Node × Faults)) :
+/-- `C09_fatal_fatalcfg` with the declarative right-hand side. -/
+theorem C09_fatal_declarative_fatalcfg (c : Cfg) (hb : FatalCfg c) (ho : GiOK c) (roots : List (Node × Faults)) :
     (run c roots).err = (if toldFaultScan c roots then .fs else .none) := by
   rw [← C09_fatal_anchor]; exact run_fatal c hb ho roots
 
 /-- **Fatal errors, no traversal fault** (class `FatalCfg`): the scan is the benign scan — it succeeds, and its
-attempts, inventory and statuses are the benign specification's (so `C09_contained`, `C09_surfaced`,
+attempts, inventory and statuses are the benign specification's (so `C09_contained_partial`, `C09_surfaced_benign`,
 `C09_status_meaning` describe it: faults that are not traversal faults — a file that cannot be opened or stat'ed
 for extraction — are charged to the extractor's status, never fatal). -/
-theorem C09_fatal_clean (c : Cfg) (hb : FatalCfg c) (ho : GiOK c) (roots : List (Node × Faults))
+theorem C09_fatal_clean_fatalcfg (c : Cfg) (hb : FatalCfg c) (ho : GiOK c) (roots : List (Node × Faults))
     (hnf : traversalFaultScan c roots = false) :
     (run c roots).err = .none ∧ (run c roots).calls = mustExtract c roots ∧
     (run c roots).pkgs = pkgsOfCalls c (mustExtract c roots) ∧
@@ -213,8 +264,8 @@ example : NoGiFaults { openFail := fun p => p = ["a"] } := by
 example : faultHits { nExt := 1, required := fun _ _ => true, extract := fun _ _ => {}, giMatch := fun _ _ _ _ => false }
     { openFail := fun p => p = ["a"] } ⟨["a", "x"], .reg, 1, [⟨[], none, 0⟩, ⟨["a"], none, 0⟩]⟩ = true := by decide
 
-/-! more non-vacuity: the `false` side of `C09_fatal` (a file that cannot be opened for extraction is NOT a traversal
-fault: `C09_fatal_clean` applies), the declarative predicate on the same inputs, and `stripGi` on a tree whose
+/-! more non-vacuity: the `false` side of `C09_fatal_fatalcfg` (a file that cannot be opened for extraction is NOT a traversal
+fault: `C09_fatal_clean_fatalcfg` applies), the declarative predicate on the same inputs, and `stripGi` on a tree whose
 `.gitignore` is unreadable -/
 def exF : Cfg := { nExt := 1, required := fun _ _ => true, extract := fun _ _ => {}, errorOnFSErrors := true, useGitignore := true,
                    giMatch := matcherMatch }
